@@ -21,6 +21,7 @@ import (
 	"strconv"
 	"strings"
 	"sync"
+	"syscall"
 	"time"
 
 	"verif/internal/ev"
@@ -119,6 +120,24 @@ func runFuzz(R, scratch, id string, pt part, pi, fi int, target string, d time.D
 	return res
 }
 
+func envTrouble(msg string) bool {
+	for _, needle := range []string{"no space left on device", "cache entry not found", "creating work dir"} {
+		if strings.Contains(msg, needle) {
+			return true
+		}
+	}
+	return false
+}
+
+// freeBytes reports the free space of the file system holding dir (-1 when it cannot be determined).
+func freeBytes(dir string) int64 {
+	var st syscall.Statfs_t
+	if err := syscall.Statfs(dir, &st); err != nil {
+		return -1
+	}
+	return int64(st.Bavail) * int64(st.Bsize)
+}
+
 func lastLine(s string) string {
 	ls := strings.Split(strings.TrimSpace(s), "\n")
 	for i := len(ls) - 1; i >= 0; i-- {
@@ -209,6 +228,21 @@ func run() int {
 	}
 	defer os.RemoveAll(scratch)
 
+	// Disk: generated projects are compiled by the thousand and everything go compiles lands in its build cache.
+	// A full disk turns into failures that look like findings (a command that cannot write its output "rejects a valid
+	// configuration"), so a run does not start without head room and never reports what ENOSPC produced.
+	if free := freeBytes(scratch); free >= 0 && free < 6<<30 {
+		fmt.Printf("INCONCLUSIVE: property=%s only %d MiB free on the scratch/cache file system (need 6 GiB); run `go clean -cache` or free space\n", id, free>>20)
+		return 2
+	}
+	// The thorough tier of the labs that compile every generated project keeps go's cache in the scratch directory
+	// (removed on exit): hundreds of unique packages per run would otherwise stay in ~/.cache/go-build for days.
+	projectCache := ""
+	if *tier == "thorough" && *replay == "" {
+		projectCache = filepath.Join(scratch, "gocache")
+		_ = os.MkdirAll(projectCache, 0o755)
+	}
+
 	var results []shardRes
 
 	// Which part does a replay file belong to?
@@ -278,8 +312,12 @@ func run() int {
 			cmd.Env = goEnv(append(append([]string{
 				"VERIF_OUT=" + outFile, "VERIF_ROOT=" + R, "VERIF_SCRATCH=" + shardScratch,
 				"VERIF_TIER=" + *tier, "VERIF_SHARD=" + strconv.Itoa(i), "VERIF_SHARDS=" + strconv.Itoa(tc.Shards), "VERIF_PROPERTY=" + id, "VERIF_PART=" + pt.Name,
-				"VERIF_CASES=" + strconv.Itoa(cases), "VERIF_RSEED=" + strconv.FormatUint(sd, 10), "TMPDIR=" + shardScratch,
+				"VERIF_CASES=" + strconv.Itoa(cases), "VERIF_RSEED=" + strconv.FormatUint(sd, 10), "TMPDIR=" + shardScratch, "VERIF_PROJECT_GOCACHE=" + projectCache,
 			}, pt.Env...), env...)...)
+			if projectCache != "" {
+				// also what the in-process analysis (go/packages) and the CLI runs compile while loading generated projects
+				cmd.Env = append(cmd.Env, "GOCACHE="+projectCache)
+			}
 			var buf bytes.Buffer
 			cmd.Stdout, cmd.Stderr = &buf, &buf
 			cmd.WaitDelay = 5 * time.Second
@@ -396,7 +434,14 @@ func run() int {
 			}
 			merged.Samples = append(merged.Samples, s.Samples[:n]...)
 		}
-		merged.Violations = append(merged.Violations, s.Violations...)
+		for _, v := range s.Violations {
+			// a failure produced by a full disk (or a vanished cache entry) is an environment problem, never a finding
+			if envTrouble(v.Message) {
+				merged.Inconclusive = append(merged.Inconclusive, "environment failure inside a case (disk full / build cache entry missing): "+tail(v.Message, 300))
+				continue
+			}
+			merged.Violations = append(merged.Violations, v)
+		}
 		merged.Inconclusive = append(merged.Inconclusive, s.Inconclusive...)
 		if s.Rule != "" && !strings.Contains(merged.Rule, s.Rule) {
 			if merged.Rule != "" {
